@@ -31,7 +31,7 @@ ASSUMPTIONS = [
     'not violated',
     'asynchronous generators are driven to exhaustion (all their gates are eventually released)',
 ]
-REQUIRED = {'scenarios': 1500, 'deliveries': 1500, 'scenarios_two_pending': 500, 'scenarios_plain_while_pending': 300, 'rx_scenarios': 200, 'rxlazy_scenarios': 200, 'rxgen_scenarios': 100, 'generator_tails_completed': 50, 'reassign_scenarios': 10, 'cancellations_swallowed_by_the_coroutine': 30,
+REQUIRED = {'rxroot_scenarios': 6, 'scenarios': 1500, 'deliveries': 1500, 'scenarios_two_pending': 500, 'scenarios_plain_while_pending': 300, 'rx_scenarios': 200, 'rxlazy_scenarios': 200, 'rxgen_scenarios': 100, 'generator_tails_completed': 50, 'reassign_scenarios': 10, 'cancellations_swallowed_by_the_coroutine': 30,
             'faults_fired': 300}
 DEVMODE = False
 
@@ -152,6 +152,17 @@ def enumerate_scenarios(P):
                     for watched in (False, True):
                         for stage2 in (None, 'sync', 'coro'):
                             out.append(dict(target='rxlazy', n=n, inputs=ins, reads=reads, order=order, watched=watched, stage2=stage2))
+    # an expression whose ROOT is an asynchronous function or generator: a plain value assigned to it while a result is
+    # pending ends the stream for good - also when that value equals what the expression holds at that moment
+    for kind in ('coro', 'gen'):
+        for when in ('before-first-result', 'after-first-item'):
+            if kind == 'coro' and when == 'after-first-item':
+                continue
+            for plain in ('same-as-current', 'other'):
+                if plain == 'same-as-current' and when == 'before-first-result':
+                    continue        # (it holds no value yet)
+                for derived in (False, True):
+                    out.append(dict(target='rxroot', kind=kind, when=when, plain=plain, derived=derived))
     # the same histories with coroutines that swallow their cancellation and return a value all the same
     out += [dict(s_, stubborn=True) for s_ in out if s_['target'] == 'param' and 'coro' in s_['ops'] and len(s_['ops']) <= 2 and not s_.get('poison')]
     return out
@@ -181,6 +192,8 @@ def run_case(idx, rng, P, rep):
         res = loop.run_until_complete(run_rxgen(sc, rep))
     elif sc['target'] == 'reassign':
         res = loop.run_until_complete(run_reassign(sc, rep))
+    elif sc['target'] == 'rxroot':
+        res = loop.run_until_complete(run_rxroot(sc, rep))
     else:
         res = loop.run_until_complete(run_rx(sc, rep))
     # cancel whatever is left so that scenarios do not leak into each other
@@ -509,6 +522,48 @@ async def run_rxgen(sc, rep):
         rep.violation('C10/rx/final-value/superseded-or-missing-result/generator-stage', f'after all evaluations completed the expression '
                       f'holds {final!r}, the latest root value gives {exp!r}', case=desc, trace=[repr(x) for x in seen])
     return n >= 2
+
+
+async def run_rxroot(sc, rep):
+    param = _st['param']
+    loop = asyncio.get_running_loop()
+    gates = [loop.create_future() for _ in range(3)]
+    if sc['kind'] == 'coro':
+        async def source():
+            return await gates[0]
+    else:
+        async def source():
+            yield await gates[0]
+            yield await gates[1]
+            yield await gates[2]
+    root = param.rx(source)
+    expr = root.rx.pipe(lambda v: ('seen', v)) if sc['derived'] else root
+    seen = []
+    expr.rx.watch(seen.append)
+    await turns(6)
+    desc = dict(sc)
+    if sc['when'] == 'after-first-item':
+        gates[0].set_result(('item', 0))
+        await turns(8)
+    current = root.rx.value
+    plain = current if sc['plain'] == 'same-as-current' else ('plain', 1)
+    root.rx.value = plain            # e.g. freezing a stream at the item it shows
+    await turns()
+    for i, g in enumerate(gates):
+        if not g.done():             # (cancelling the evaluation cancels the future it awaits)
+            g.set_result(('item', i))
+        await turns(6)
+    await turns(20)
+    rep.count('rxroot_scenarios')
+    rep.count('deliveries', len(seen))
+    final = outcome_value(root)
+    if final != plain:
+        rep.violation('C10/rxroot/plain-overwritten-by-late-result', f'the expression was given the plain value {plain!r} while a result of its '
+                      f'{sc["kind"]} root was pending; after everything completed it holds {final!r}', case=desc, trace=[repr(x) for x in seen])
+    want = ('seen', plain) if sc['derived'] else plain
+    if outcome_value(expr) != want:
+        rep.violation('C10/rxroot/derived-value-stale', f'derived expression holds {outcome_value(expr)!r}, expected {want!r}', case=desc)
+    return True
 
 
 async def run_rx(sc, rep):
